@@ -45,6 +45,18 @@ def gen_c02(rng, tier):
 
 def gen_c16(rng, tier):
     algo = rng.choice(ALGOS)
+    if rng.random() < 0.25:
+        # fill, then shrink: the evictions of a resize (listener callbacks and destructors run on the threads resize spawns)
+        cap = rng.choice([2, 3, 4])
+        lines = [f"cfg algo={algo} shards=1 cap={cap} rounds={20 if tier == 'thorough' else 6} jitter={rng.randrange(1, 10**6)} reent=1 timeout=30 "
+                 f"weights=0 filter=0"]
+        for k in range(cap):
+            lines.append(f"t0 ins {k}")
+        lines.append(f"t0 resize {rng.randrange(1, cap)}")
+        for _ in range(rng.randrange(0, 4)):
+            lines.append(f"t0 {rng.choice(['ins', 'get', 'rm'])} {rng.randrange(4)}")
+        lines += [f"t0 resize {cap}"] + [f"t0 ins {k}" for k in range(cap)] + ["t0 resize 1"]
+        return "\n".join(lines) + "\n"
     nthreads = rng.choice([1, 1, 2, 3])
     cap = rng.choice([1, 2, 3])
     lines = [f"cfg algo={algo} shards=1 cap={cap} rounds={20 if tier == 'thorough' else 6} jitter={rng.randrange(1, 10**6)} reent=1 timeout=30 "
